@@ -152,6 +152,7 @@ func (r *Runner) execCheckpoint(e Ev) {
 		return
 	}
 	r2 := NewRunner(r.U, r.Cfg, r.FS, dir, r.T)
+	r2.Logger = r.Logger
 	if err := r2.Open(); err != nil {
 		out["err"] = "open checkpoint: " + err.Error()
 		r.T.Emit(out)
@@ -281,6 +282,7 @@ func (r *Runner) execScanInt(e Ev) {
 		return items[i].n > items[j].n
 	})
 	r2 := NewRunner(u, r.Cfg, vfs.NewMem(), "replica", r.T)
+	r2.Logger = r.Logger
 	if err := r2.Open(); err != nil {
 		r.fail(errors.Wrap(err, "open replica"))
 		return
